@@ -41,27 +41,29 @@ func (c *coord) fire() { c.trigOnce.Do(func() { close(c.trigger) }) }
 
 // clientPeer drives one gortsplib Client through the protocol steps.
 type clientPeer struct {
-	idx      int
-	spec     PeerSpec
-	sc       *Spec
-	co       *coord
-	addr     string
-	path     string
-	c        *gortsplib.Client
-	desc     *description.Session
-	rec      *Rec // non-nil: this is the client under test, log its callbacks
-	packets  atomic.Int64
-	ports    map[string]bool // local ports of the sockets this client opened
-	pmu      sync.Mutex
-	blockers []net.PacketConn // sockets of the harness that occupy odd ports
-	ledger   []ledgerEntry    // every socket the client obtained through DialContext / ListenPacket (kept referenced: no finalizer can close a forgotten one)
-	collided atomic.Int64
-	stalled  *atomic.Bool // non-nil: the peer stops reading its TCP connection when set
-	sndbuf   int
-	rcvbuf   int
-	errs     []string
-	done     chan struct{}
-	seq      uint16
+	idx         int
+	spec        PeerSpec
+	sc          *Spec
+	co          *coord
+	addr        string
+	path        string
+	c           *gortsplib.Client
+	desc        *description.Session
+	rec         *Rec // non-nil: this is the client under test, log its callbacks
+	packets     atomic.Int64
+	ports       map[string]bool // local ports of the sockets this client opened
+	pmu         sync.Mutex
+	blockers    []net.PacketConn // sockets of the harness that occupy odd ports
+	ledger      []ledgerEntry    // every socket the client obtained through DialContext / ListenPacket (kept referenced: no finalizer can close a forgotten one)
+	collided    atomic.Int64
+	dialBlocked atomic.Bool
+	dialEnd     atomic.Value // string
+	stalled     *atomic.Bool // non-nil: the peer stops reading its TCP connection when set
+	sndbuf      int
+	rcvbuf      int
+	errs        []string
+	done        chan struct{}
+	seq         uint16
 }
 
 // stallConn is a TCP connection whose Read can be frozen (a peer that stopped reading).
@@ -186,6 +188,36 @@ func (p *clientPeer) init(readTimeout, writeTimeout time.Duration) {
 			}
 		}
 		return pc, err
+	}
+	if p.sc.ServerKind == "blockdial" && p.rec != nil {
+		p.c.ReadTimeout = 6 * time.Second // = dial timeout: far above the Close bound
+		inner := p.c.DialContext
+		var dials atomic.Int64
+		block := func(ctx context.Context) (net.Conn, error) {
+			p.dialBlocked.Store(true)
+			<-ctx.Done()
+			if ctx.Err() == context.Canceled {
+				p.dialEnd.Store("canceled")
+			} else {
+				p.dialEnd.Store("deadline")
+			}
+			return nil, ctx.Err()
+		}
+		switch p.sc.DialBlock {
+		case "tls":
+			p.c.Scheme = "rtsps"
+			p.c.DialTLSContext = func(ctx context.Context, _, _ string) (net.Conn, error) { return block(ctx) }
+		case "tunnel1", "tunnel2":
+			p.c.Tunnel = gortsplib.TunnelHTTP
+			p.c.DialContext = func(ctx context.Context, network, address string) (net.Conn, error) {
+				if n := dials.Add(1); p.sc.DialBlock == "tunnel1" || n >= 2 {
+					return block(ctx)
+				}
+				return inner(ctx, network, address)
+			}
+		default:
+			p.c.DialContext = func(ctx context.Context, _, _ string) (net.Conn, error) { return block(ctx) }
+		}
 	}
 	if p.rec != nil {
 		p.c.OnRequest = func(*base.Request) { p.rec.ClientRequest("OnRequest") }
@@ -558,6 +590,8 @@ func (r *rawPeer) run() error {
 		return r.redundant(base)
 	case "backchan-udp":
 		return r.backchan(base)
+	case "rtcpburst-tcp":
+		return r.rtcpburst(base)
 	case "stall":
 		if _, err = r.request("OPTIONS", base, 1, ""); err != nil {
 			return err
@@ -648,6 +682,9 @@ func (r *rawPeer) waitFlow(what string) {
 }
 
 func (r *rawPeer) close() {
+	if r.spec.Mode == "rtcpburst-tcp" && r.conn != nil {
+		r.conn.Close()
+	}
 	if r.done != nil {
 		select {
 		case <-r.done:
